@@ -28,7 +28,7 @@ def show(v):
         return json.dumps("".join(map(chr, v["cp"])))
     if k == "list":
         return "[" + ", ".join(show(x) for x in v["items"]) + "]"
-    return k
+    return k       # null, omitted, none
 
 
 def ann_text(a):
@@ -41,7 +41,8 @@ def ann_text(a):
             parts.append('regex = "%s"' % val["re"])
         else:
             parts.append("%s = %d" % (val["kind"], val["n"]))
-    return "%s: %s%s (%s)" % (a["name"], a["T"], {"plain": "", "opt": "?", "list": "[]", "optlist": "[]?"}[a["cont"]], ", ".join(parts))
+    dflt = (", " + a["dflt_attr"] + " [= " + show(a["dflt"]) + "]") if a.get("dflt_attr") else ""
+    return "%s: %s%s (%s%s)" % (a["name"], a["T"], {"plain": "", "opt": "?", "list": "[]", "optlist": "[]?"}[a["cont"]], ", ".join(parts), dflt)
 
 
 def body(c):
@@ -101,7 +102,10 @@ def body(c):
         cases_in = []
         for r in rows:
             full = (not c.quick) or r["field"] in numeric
+            full = full or fam[r["field"]]["dflt"]["k"] != "none"      # positions with a default: always all four
             for m, rt in ((("strict", "lit"), ("strict", "var"), ("fast", "lit"), ("fast", "var")) if full else (("strict", "lit"), ("fast", "var"))):
+                if r["v"]["k"] == "omitted" and rt == "var" and fam[r["field"]]["site"] == "arg":
+                    continue        # an omitted *variable* for an argument with a default is argument coercion (C06), not a validator case
                 cases_in.append({"field": r["field"], "route": rt, "mode": m, "v": r["v"]})
     vlib.write_ndjson(c.path("cases.ndjson"), cases_in)
     p = vlib.run_harness(binary, ["run", c.path("cases.ndjson"), c.path("trace.ndjson")], timeout=1800)
@@ -125,7 +129,12 @@ def body(c):
         raise vlib.ToolError("V produced %d verdicts for %d cases" % (len(verdicts), len(cases)))
     seen = {}
     first = {}
+    omitted_seen, explicit_refused = {}, {}
     for case in cases:
+        if case["v"]["k"] == "omitted":
+            omitted_seen[case["field"]] = True
+        elif case["calls"] == 0 and case["errs"] > 0:
+            explicit_refused[case["field"]] = True
         c.count_case({"field": case["field"], "route": case["route"], "mode": case["mode"], "v": case["v"]}, True)
         vd = verdicts[case["id"]]
         slim = {k: case[k] for k in ("field", "site", "route", "mode", "v", "panic", "calls", "errs", "on_field", "paths", "note")}
@@ -145,12 +154,14 @@ def body(c):
             r = sum(seen.get((name, m), [0, 0])[1] for m in ("strict", "fast"))
             if a == 0 or r == 0:
                 raise vlib.ToolError("vacuity: %s reached the resolver %d times and was refused %d times" % (name, a, r))
+            if fam[name]["dflt"]["k"] != "none" and not (omitted_seen.get(name) and explicit_refused.get(name)):
+                raise vlib.ToolError("vacuity: position %s with a default lacks an omission or a refused explicit value" % name)
     c.cov["traces_validated_against_impl"] = len(cases)
     c.cov["exhaustive"] = True
     c.cov["rule"] = ("G (TLC, Gen_Validators.tla): for each of the %d annotated positions of the family (maximum / minimum / multiple_of on every "
                      "integer width, f32, f64 with integer and float bounds, positive and negative, at the 64-bit extremes; max/min_length, "
                      "chars_max/min_length, three regex patterns on String / ID; max/min_items; list forms; optional positions; arguments and "
-                     "input-object fields) every value of the per-kind pools (see the module header) that belongs to the declared Rust type; "
+                     "input-object fields, with and without `default` / `default = ..` / `default_with`) every value of the per-kind pools (see the module header) that belongs to the declared Rust type; "
                      "crossed by the driver with strict/fast validation mode and literal/variable transport (quick tier: all four combinations for "
                      "numeric validators, strict+literal and fast+variable for string / item-count validators).  Every case tests one "
                      "reach-or-refuse decision, hence non-trivial; distinct by (position, mode, transport, value)." % len(fam))
